@@ -31,6 +31,20 @@ def make_plan(prop, rng, idx, tier, variant="asan"):
             return hist.gen_history(rng, "C13", faults=True), "faults"
         return hist.gen_history(rng, "C13", hostile=True, faults=True), "hostile"
     if prop == "C14":
+        plan, cfg = _make_c14(rng, idx)
+        if not is_cli(plan):
+            # the lifecycle hook records and carries on here: C14 wants to see
+            # what the process does next (a crash is C14's, the lifecycle is C13's)
+            plan["knobs"]["scon_fatal"] = 0
+        return plan, cfg
+    if prop == "C19":
+        from . import cli
+        return cli.make_plan(rng, idx)
+    raise ValueError(prop)
+
+
+def _make_c14(rng, idx):
+    if True:
         m = idx % 10
         if m < 6:
             return hist.gen_history(rng, "C14", hostile=True, faults=(m >= 4)), "hostile"
